@@ -28,6 +28,7 @@ import (
 	"encoding/hex"
 	"errors"
 	"fmt"
+	"hash/fnv"
 	"io"
 	"net"
 	"reflect"
@@ -126,10 +127,38 @@ type c12Session struct {
 	connDone chan struct{}
 }
 
+// client configuration: which MessageHandlers are registered (reply correlation must not depend on it)
+//
+//	none | exp (a handler for every status-bearing response type) | err (MsgErrorMessage) | def (WithDefaultHandler) | all
+var c12Cfg = "none"
+
+func c12ClientOpts(cfg string) []ClientOpt {
+	opts := []ClientOpt{WithLogger(nil)}
+	h := MessageHandlerFunc(func(c *Client, msg Message) { // a handler that consumes the message, as a real one would
+		_, _ = io.Copy(io.Discard, msg.payload)
+	})
+	if cfg == "exp" || cfg == "all" {
+		for mt := MessageType(0); mt < 1024; mt++ {
+			if inst := mt.NewInstance(); inst != nil && mt != MsgErrorMessage {
+				if _, ok := inst.(Statusable); ok {
+					opts = append(opts, WithMessageHandler(mt, h))
+				}
+			}
+		}
+	}
+	if cfg == "err" || cfg == "all" {
+		opts = append(opts, WithMessageHandler(MsgErrorMessage, h))
+	}
+	if cfg == "def" || cfg == "all" {
+		opts = append(opts, WithDefaultHandler(h))
+	}
+	return opts
+}
+
 func c12NewSession() *c12Session {
-	s := &c12Session{script: make(chan c12Reply, 1), peerDone: make(chan struct{}), connDone: make(chan struct{})}
+	s := &c12Session{script: make(chan c12Reply, 4), peerDone: make(chan struct{}), connDone: make(chan struct{})}
 	s.cconn, s.pconn = net.Pipe()
-	s.client = NewClient(WithVersion(Version1_0_1), WithLogger(nil))
+	s.client = NewClient(append(c12ClientOpts(c12Cfg), WithVersion(Version1_0_1))...)
 	go s.peer()
 	go func() {
 		defer close(s.connDone)
@@ -302,7 +331,7 @@ func (s *c12Session) exchange(exp, act MessageType, payload []byte, mode string,
 		hard.Stop()
 	case <-hard.C:
 		cancel()
-		return "timeout - - - - same - - - -", true
+		return "timeout - - - - same - - - - ok - -", true
 	}
 	cancel()
 	return c12Answer(err, panicked, in, before)
@@ -339,7 +368,86 @@ func c12Answer(err error, panicked bool, in, before Incoming) (line string, brok
 		ls := st.Status()
 		inFields = c12FmtStatus(ls.Status, ls.ErrorDescription, ls.FieldError, ls.ParameterError)
 	}
-	return cls + " " + fields + " " + same + " " + inFields, broken
+	return cls + " " + fields + " " + same + " " + inFields + " " + c12Render(err, se, ""), broken
+}
+
+// c12Render calls every observer of a returned error under recover: the error must be usable, not only present.
+// result: "<ok|panic@observer> <y|n|-> <hash|->": whether any observer panicked; whether the text contains the
+// reader's description (and, if given, wantText); FNV-64 of the *StatusError's own text (to compare across codes).
+func c12Render(err error, se *StatusError, wantText string) string {
+	if err == nil {
+		return "ok - -"
+	}
+	rend, where := "ok", ""
+	try := func(name string, f func() string) string {
+		out := ""
+		func() {
+			defer func() {
+				if r := recover(); r != nil && where == "" {
+					where = name
+				}
+			}()
+			out = f()
+		}()
+		if strings.Contains(out, "PANIC=") && where == "" { // fmt recovers a panicking Error method itself
+			where = name
+		}
+		return out
+	}
+	text := try("Error", err.Error)
+	try("fmt-v", func() string { return fmt.Sprintf("%v", err) })
+	try("fmt-plus-v", func() string { return fmt.Sprintf("%+v", err) })
+	try("fmt-s", func() string { return fmt.Sprintf("%s", err) })
+	try("unwrap-chain", func() string {
+		n := 0
+		for e := err; e != nil && n < 100; e, n = errors.Unwrap(e), n+1 {
+			_ = e.Error()
+		}
+		_ = errors.Is(err, context.Canceled)
+		_ = errors.Is(err, ErrClientClosed)
+		var x *StatusError
+		_ = errors.As(err, &x)
+		return ""
+	})
+	contains, hash := "-", "-"
+	if se != nil {
+		own := try("StatusError.Error", se.Error)
+		try("StatusCode.String", func() string { return se.Status.String() + fmt.Sprint(se.Status) })
+		try("StatusError-fmt", func() string { return fmt.Sprintf("%v", se) })
+		if se.FieldError != nil {
+			try("FieldError.Error", func() string { return se.FieldError.Error() + se.FieldError.ErrorCode.String() })
+		}
+		for pe := se.ParameterError; pe != nil; pe = pe.ParameterError {
+			pe := pe
+			try("ParameterError.Error", func() string {
+				out := pe.ErrorCode.String() + pe.ParameterType.String()
+				if pe == se.ParameterError { // Error() recurses through every deeper level itself
+					out += pe.Error()
+				}
+				if pe.FieldError != nil {
+					out += pe.FieldError.Error() + pe.FieldError.ErrorCode.String()
+				}
+				return out
+			})
+		}
+		contains = "y"
+		if !strings.Contains(text, se.ErrorDescription) || !strings.Contains(own, se.ErrorDescription) || !strings.Contains(text, own) {
+			contains = "n" // the wrapping error's text must carry the status error's text, which carries the description
+		}
+		hs := fnv.New64a()
+		hs.Write([]byte(own))
+		hash = strconv.FormatUint(hs.Sum64(), 16)
+	}
+	if wantText != "" {
+		contains = "y"
+		if !strings.Contains(text, wantText) {
+			contains = "n"
+		}
+	}
+	if where != "" {
+		rend = "panic@" + where
+	}
+	return rend + " " + contains + " " + hash
 }
 
 // ---- several SendFor calls in flight on one Client; replies written back to back in one TCP write ----
@@ -493,7 +601,7 @@ func (s *c12Conc) round(cases []c12ConcCase, perm []int, timeout time.Duration) 
 	case <-hard.C:
 		out := make([]string, n)
 		for i := range out {
-			out[i] = "timeout - - - - same - - - -"
+			out[i] = "timeout - - - - same - - - - ok - -"
 		}
 		return out, true
 	}
@@ -501,6 +609,102 @@ func (s *c12Conc) round(cases []c12ConcCase, perm []int, timeout time.Duration) 
 		broken = broken || x
 	}
 	return answers, broken
+}
+
+// c12Internal: the request/response exchanges the Client performs itself.
+//
+//	gsv   Connect's GET_SUPPORTED_VERSION (client at the default version 1.1), scripted reply (act, status)
+//	spv   GET_SUPPORTED_VERSION answered (current 1.0.1, max 1.1, Success), then SET_PROTOCOL_VERSION gets the scripted reply
+//	close Shutdown's CLOSE_CONNECTION gets the scripted reply
+//
+// answer: <cls> <code> <desc> <fe> <pe> <render> <text-has-status> ; cls = nil (Connect got ready / Shutdown returned nil) |
+// status (errors.As *StatusError) | other | timeout
+func c12Internal(which string, act MessageType, code uint16, d []byte, f *c12Level, p []c12Level, flags string) string {
+	layout := map[string]MessageType{"gsv": MsgGetSupportedVersionResponse, "spv": MsgSetProtocolVersionResponse, "close": MsgCloseConnectionResponse}[which]
+	if layout == 0 {
+		return "error: bad request"
+	}
+	st := c12statusTLV(code, d, f, p, flags)
+	payload := st
+	if act != MsgErrorMessage && layout == MsgGetSupportedVersionResponse {
+		payload = append([]byte{2 << 5, 2 << 5}, st...) // already at 1.1: no SET_PROTOCOL_VERSION follows
+	}
+	s := &c12Session{script: make(chan c12Reply, 4), peerDone: make(chan struct{}), connDone: make(chan struct{})}
+	s.cconn, s.pconn = net.Pipe()
+	opts := c12ClientOpts(c12Cfg)
+	if which == "close" {
+		opts = append(opts, WithVersion(Version1_0_1))
+	}
+	s.client = NewClient(opts...)
+	if which == "spv" {
+		s.script <- c12Reply{typ: uint16(MsgGetSupportedVersionResponse), payload: append([]byte{1 << 5, 2 << 5}, c12statusTLV(0, nil, nil, nil, "")...)}
+	}
+	s.script <- c12Reply{typ: uint16(act), payload: payload}
+	go s.peer()
+	connErr := make(chan error, 1)
+	go func() {
+		defer close(s.connDone)
+		connErr <- s.client.Connect(s.cconn)
+	}()
+	defer s.close()
+	var err error
+	timer := time.NewTimer(c12RetryTimeout)
+	defer timer.Stop()
+	if which == "close" {
+		res := make(chan error, 1)
+		go func() {
+			ctx, cancel := context.WithTimeout(context.Background(), c12RetryTimeout)
+			defer cancel()
+			res <- s.client.Shutdown(ctx)
+		}()
+		select {
+		case err = <-res:
+		case <-timer.C:
+			return "timeout - - - - ok -"
+		}
+	} else {
+		select {
+		case err = <-connErr:
+			if err == nil {
+				err = errors.New("Connect returned nil")
+			}
+		case <-s.client.ready: // negotiation succeeded: the client accepts requests
+		case <-timer.C:
+			return "timeout - - - - ok -"
+		}
+	}
+	if err == nil {
+		return "nil - - - - ok -"
+	}
+	// the text a *StatusError built from the scripted values has
+	want := StatusError{Status: StatusCode(code), ErrorDescription: string(d)}
+	if f != nil {
+		want.FieldError = &FieldError{FieldIndex: f.fidx, ErrorCode: StatusCode(f.fcode)}
+	}
+	var tail **ParameterError = &want.ParameterError
+	for _, l := range p {
+		pe := &ParameterError{ParameterType: ParamType(l.ptype), ErrorCode: StatusCode(l.code)}
+		if l.hasFE {
+			pe.FieldError = &FieldError{FieldIndex: l.fidx, ErrorCode: StatusCode(l.fcode)}
+		}
+		*tail = pe
+		tail = &pe.ParameterError
+	}
+	wantText := ""
+	func() {
+		defer func() { _ = recover() }()
+		wantText = want.Error()
+	}()
+	cls, fields := "other", "- - - -"
+	var se *StatusError
+	if errors.As(err, &se) && se != nil {
+		cls = "status"
+		fields = c12FmtStatus(se.Status, se.ErrorDescription, se.FieldError, se.ParameterError)
+	} else if errors.Is(err, context.DeadlineExceeded) {
+		cls = "timeout"
+	}
+	r := strings.Fields(c12Render(err, se, wantText))
+	return cls + " " + fields + " " + r[0] + " " + r[1]
 }
 
 func c12ParseU16(s string) (uint16, error) {
@@ -629,7 +833,7 @@ func TestVerifC12(t *testing.T) {
 					continue
 				}
 				if nBroken >= c12BrokenBudget {
-					fmt.Fprintln(w, "skipped - - - - same - - - -")
+					fmt.Fprintln(w, "skipped - - - - same - - - - ok - -")
 					continue
 				}
 				var pre *c12Reply
@@ -641,7 +845,7 @@ func TestVerifC12(t *testing.T) {
 					payload, _ = c12Payload(MessageType(exp), MessageType(exp), uint16(c), d, f, p, mode[1:])
 				}
 				ans, broken := s.exchange(MessageType(exp), replyT, payload, mode, pre, c12Timeout)
-				if broken && strings.HasPrefix(ans, "timeout") {
+				if broken && strings.HasPrefix(ans, "timeout") && nBroken < 2 {
 					s.close()
 					s = c12NewSession()
 					ans, broken = s.exchange(MessageType(exp), replyT, payload, mode, pre, c12RetryTimeout)
@@ -653,6 +857,39 @@ func TestVerifC12(t *testing.T) {
 					s = c12NewSession()
 				}
 			}
+		case len(tok) == 2 && tok[0] == "cfg":
+			c12Cfg = tok[1]
+			s.close()
+			s = c12NewSession()
+			fmt.Fprintln(w, "cfg "+tok[1])
+		case len(tok) == 3 && tok[0] == "dt":
+			lo, _ := strconv.Atoi(tok[1])
+			hi, _ := strconv.Atoi(tok[2])
+			for c := lo; c < hi && c < 65536; c++ {
+				txt, ok := "", true
+				func() {
+					defer func() {
+						if recover() != nil {
+							ok = false
+						}
+					}()
+					txt = StatusCode(c).defaultText() + "|" + StatusCode(c).String()
+				}()
+				if ok {
+					fmt.Fprintln(w, "ok "+hex.EncodeToString([]byte(txt)))
+				} else {
+					fmt.Fprintln(w, "panic -")
+				}
+			}
+		case len(tok) == 8 && tok[0] == "i":
+			act, e2 := c12ParseU16(tok[2])
+			code, e3 := c12ParseU16(tok[3])
+			d, f, p, e4 := c12ParseShape(tok[4], tok[5], tok[6])
+			if e2 != nil || e3 != nil || e4 != nil || tok[7] == "" {
+				fmt.Fprintln(w, "error: bad request")
+				continue
+			}
+			fmt.Fprintln(w, c12Internal(tok[1], MessageType(act), code, d, f, p, tok[7][1:]))
 		case len(tok) >= 4 && tok[0] == "c":
 			n, e1 := strconv.Atoi(tok[3])
 			gmp, e2 := strconv.Atoi(tok[2])
@@ -687,7 +924,7 @@ func TestVerifC12(t *testing.T) {
 				continue
 			}
 			if nBroken >= c12BrokenBudget {
-				fmt.Fprintln(w, strings.Repeat("skipped - - - - same - - - - | ", n-1)+"skipped - - - - same - - - -")
+				fmt.Fprintln(w, strings.Repeat("skipped - - - - same - - - - ok - - | ", n-1)+"skipped - - - - same - - - - ok - -")
 				continue
 			}
 			if gmp != curGMP { // 0 = the process default
